@@ -302,6 +302,15 @@ func intrinsicTable() map[string]intrinsic {
 		m.ufInv[gn] = fn
 		return done(nil)
 	}
+	T[zz+"UFCollisionFree"] = func(m *Machine, th *Thread, fr *Frame, f FuncV, a []Value) (Value, invStatus) {
+		// cryptographic idealisation: two applications of this function with different arguments (contents or
+		// lengths) give different results
+		if m.ufCF == nil {
+			m.ufCF = map[string]bool{}
+		}
+		m.ufCF[m.argStr(a[0])] = true
+		return done(nil)
+	}
 	T[zz+"UFLeftInverse"] = func(m *Machine, th *Thread, fr *Frame, f FuncV, a []Value) (Value, invStatus) {
 		m.ufInv[m.argStr(a[0])] = m.argStr(a[1])
 		return done(nil)
@@ -374,6 +383,27 @@ func intrinsicTable() map[string]intrinsic {
 }
 
 func (m *Machine) noteUF(name, sig string, app *Term) {
+	if m.ufCF[name] {
+		for _, p := range m.ufApps[name] {
+			if p == app || p.w != app.w {
+				continue
+			}
+			same := len(p.args) == len(app.args) && m.ufSigOf[p.id] == sig
+			if !same {
+				m.pc = append(m.pc, m.tt.Not(m.tt.Eq(app, p)))
+				continue
+			}
+			var eqs []*Term
+			for i := range app.args {
+				eqs = append(eqs, m.tt.Eq(app.args[i], p.args[i]))
+			}
+			m.pc = append(m.pc, m.tt.Implies(m.tt.Eq(app, p), m.tt.And(eqs...)))
+		}
+	}
+	if m.ufSigOf == nil {
+		m.ufSigOf = map[int]string{}
+	}
+	m.ufSigOf[app.id] = sig
 	m.ufApps[name] = append(m.ufApps[name], app)
 	inv, ok := m.ufInv[name]
 	if !ok {
